@@ -1665,12 +1665,16 @@ func (p *PubSub) publishMessage(msg *Message) {
 }
 
 func (p *PubSub) publishMessageBatch(batchAndOpts messageBatchAndPublishOptions) {
+	toPublish := make([]*Message, 0, len(batchAndOpts.messages))
 	for _, msg := range batchAndOpts.messages {
 		p.tracer.DeliverMessage(msg)
 		p.notifySubs(msg)
+		if !msg.Local {
+			toPublish = append(toPublish, msg)
+		}
 	}
 	// We type checked when pushing the batch to the channel
-	p.rt.(BatchPublisher).PublishBatch(batchAndOpts.messages, batchAndOpts.opts)
+	p.rt.(BatchPublisher).PublishBatch(toPublish, batchAndOpts.opts)
 }
 
 type addTopicReq struct {
